@@ -134,3 +134,47 @@ func c11R8(p *Prog, r *Report) {
 	}
 	r.OK("C11.R8", "state changes in the core loop's functions are not made on by-value copies", "-", fmt.Sprintf("%d functions run by the core loop, %d by-value struct parameters with a spilled copy examined", nfn, ncopies))
 }
+
+// C11.R9: bytes that come from a request are decoded only by routines that check the sizes the
+// bytes claim against the bytes that are there.  gonum's (*mat.Dense).UnmarshalBinaryFrom and
+// (*mat.VecDense).UnmarshalBinaryFrom allocate whatever the header claims (their documentation
+// says: not for untrusted data); reached from an RPC handler such a call lets a request make the
+// server panic (make with an impossible length) inside the handler, which net/rpc does not recover.
+func c11R9(p *Prog, r *Report, rv *Rendezvous) {
+	n := 0
+	for _, fn := range p.LibFuncs() {
+		Instrs(fn, func(in ssa.Instruction) {
+			cc := CallOf(in)
+			if cc == nil || cc.StaticCallee() == nil {
+				return
+			}
+			callee := cc.StaticCallee()
+			pk := fnPkg(callee)
+			if pk == nil || callee.Name() != "UnmarshalBinaryFrom" || pk.Path() != "gonum.org/v1/gonum/mat" {
+				return
+			}
+			n++
+			from := ""
+			for _, h := range rv.Handlers {
+				if h == fn {
+					from = FuncName(h)
+					break
+				}
+				if ok, _ := p.Reaches(h, func(x *ssa.Function) bool { return x == fn }, 5); ok {
+					from = FuncName(h)
+					break
+				}
+			}
+			r.Fn(FuncName(fn))
+			key := "matrix bytes in " + FuncName(fn) + " are decoded by a routine that checks the claimed size"
+			if from != "" {
+				r.Bad("C11.R9", key, p.InstrPos(in), "the request "+from+" reaches "+CalleeName(cc)+", which allocates the number of elements the header claims before it has seen the data (documented as unsafe for untrusted input): a header claiming an impossible size makes the handler panic, and a panic in an RPC method ends the server")
+			} else {
+				r.Unk("C11.R9", key, p.InstrPos(in), CalleeName(cc)+" is called; whether its input can come from a request was not established")
+			}
+		})
+	}
+	if n == 0 {
+		r.OK("C11.R9", "request bytes are decoded by size-checked routines", "-", "no call of gonum's UnmarshalBinaryFrom in the module")
+	}
+}
